@@ -310,8 +310,13 @@ def run(pid, tier, seed, spec):
         audit(ctx, spec['props'], log)
         if tier == 'thorough' and not ctx.broken and spec.get('coqchk', True):
             mods = ' '.join('XV.' + p[:-2].replace('/', '.') for p in spec['props'])
-            rc, out, wall = sh('coqchk -silent -o -Q . XV %s' % mods, 3000, cwd=COQ)
-            ctx.notes.append('coqchk rc=%d %.0fs' % (rc, wall))
+            # the Interval library and what it depends on (Flocq, Coquelicot, mathcomp, parts of the stdlib) are loaded without re-checking
+            # (re-checking them takes > 30 min per property); everything else in the closure of the property files is re-checked
+            rc, out, wall = sh('coqchk -silent -o -bytecode-compiler yes -admit Interval.Tactic -Q . XV %s' % mods, 3000, cwd=COQ)
+            ctx.notes.append('coqchk (independent re-check of the compiled closure, Interval library admitted) rc=%d %.0fs' % (rc, wall))
+            m = re.search(r'\* Axioms:(.*?)\n\s*\n\s*\*', out, re.S)
+            if m:
+                ctx.notes.append('coqchk axioms/opaque module fields: ' + ', '.join(x.strip() for x in m.group(1).split('\n') if x.strip()))
             if rc != 0:
                 ctx.broken.append(Broken('obligation', 'coqchk failed', out[-3000:]))
     # correspondence (model vs implementation)
